@@ -43,7 +43,7 @@ def run(R):
         lst = k.args[0] if k.args else None
         ok = isinstance(lst, ast.List) and [norm(e) for e in lst.elts] == ['self.prompt', 'self.continuation_prompt']
         c.check(ok, f, k, 'the wait lists [prompt, continuation prompt] in that order', witness=norm(lst) if lst is not None else '', kind='ast', tag='list-order')
-        kws = dict((kw.arg, norm(kw.value)) for kw in k.keywords)
+        kws = dict((nm, norm(call_arg(k, nm, pos))) for nm, pos in (('timeout', 1), ('async_', 3)) if call_arg(k, nm, pos) is not None)
         c.check(kws.get('timeout') == 'timeout' and kws.get('async_') == 'async_', f, k, 'timeout and async_ are forwarded', witness=str(kws), kind='ast', tag='forward')
         c.check(isinstance(k._parent, ast.Return), f, k, 'the index is returned', kind='ast', tag='returned')
         check_continuation(c, sync, 'self')
